@@ -84,9 +84,9 @@ def make_cases(run, scratch):
     return cases
 
 
-def script_of(cases):
+def script_of(indexed):
     out = []
-    for i, (name, lines, kind) in enumerate(cases):
+    for i, (name, lines, kind) in indexed:
         out.append("echo CASE %d" % i)
         out.append("new")
         out.append("phases 1")
@@ -96,44 +96,48 @@ def script_of(cases):
 
 
 def run_cases(run, cases, exe, drv):
-    """Runs the cases in shards (one process per shard; a crash loses only the shard's tail)."""
-    results = {}   # idx -> dict(load, wf, levels, check, crash)
+    """Runs the cases in shards (one process per shard; a crash loses only the shard's tail).
+    hwloc caches the XML backend choice (HWLOC_LIBXML_IMPORT) in a static on first use, so
+    a shard only holds cases of one backend choice."""
+    results = {}   # idx -> dict(load, wf, levels, sets, totals, check, crash)
     shard = 40
     import concurrent.futures as cf
 
-    def one(lo):
-        part = cases[lo:lo + shard]
-        scr = script_of([(n, l, k) for (n, l, k) in part]).replace("echo CASE ", "echo CASE+%d+" % lo)
-        rc, out, err = C.sh([exe], input=scr.encode(), env={k: v for k, v in C.run_env().items() if k != "HWLOC_DEBUG_CHECK"}, timeout=600)
-        rc2, out2, err2 = C.sh([drv], input=out, timeout=600)
-        return lo, rc, out2.decode(errors="replace"), err.decode(errors="replace"), rc2, err2.decode(errors="replace")
+    groups = {}
+    for i, c in enumerate(cases):
+        key = next((l for l in c[1] if l.startswith("env HWLOC_LIBXML_IMPORT")), "")
+        groups.setdefault(key, []).append((i, c))
+    shards = []
+    for key in sorted(groups):
+        g = groups[key]
+        shards += [g[lo:lo + shard] for lo in range(0, len(g), shard)]
+
+    def one(part):
+        scr = script_of(part)
+        env = {k: v for k, v in C.run_env().items() if k != "HWLOC_DEBUG_CHECK"}
+        rc, out, err = C.sh([exe], input=scr.encode(), env=env, timeout=900)
+        rc2, out2, err2 = C.sh([drv], input=out, timeout=900)
+        return part, rc, out2.decode(errors="replace"), err.decode(errors="replace"), rc2, err2.decode(errors="replace")
 
     with cf.ThreadPoolExecutor(max_workers=C.NCPU) as ex:
-        for lo, rc, txt, err, rc2, err2 in ex.map(one, range(0, len(cases), shard)):
+        for part, rc, txt, err, rc2, err2 in ex.map(one, shards):
             cur = None
+            seen = []
             for line in txt.split("\n"):
-                m = re.match(r"echo CASE\+(\d+)\+(\d+)", line)
+                m = re.match(r"echo CASE (\d+)$", line)
                 if m:
-                    cur = int(m.group(1)) + int(m.group(2))
+                    cur = int(m.group(1))
+                    seen.append(cur)
                     results[cur] = {"load": None, "wf": None, "check": None, "lines": []}
                 elif cur is not None:
                     r = results[cur]
                     r["lines"].append(line)
-                    if line.startswith("load "):
-                        r["load"] = line
-                    elif line.startswith("wf "):
-                        r["wf"] = line
-                    elif line.startswith("levels "):
-                        r["levels"] = line
-                    elif line.startswith("sets "):
-                        r["sets"] = line
-                    elif line.startswith("totals "):
-                        r["totals"] = line
-                    elif line.startswith("check "):
-                        r["check"] = line
+                    for tag in ("load", "wf", "levels", "sets", "totals", "check"):
+                        if line.startswith(tag + " "):
+                            r[tag] = line
             if rc != 0 or rc2 != 0:
                 # the case being executed when the process died
-                last = max([i for i in results if lo <= i < lo + shard], default=lo)
+                last = seen[-1] if seen else part[0][0]
                 results.setdefault(last, {"load": None, "wf": None, "check": None, "lines": []})
                 results[last]["crash"] = "harness rc=%d driver rc=%d\n%s\n%s" % (rc, rc2, err[-3000:], err2[-1500:])
     return results
